@@ -342,7 +342,10 @@ func checkC17(c *Ctx) {
 			src = path[len(path)-1]
 		}
 		what += "; origin: " + firstN(src, 160)
-		key := fnName(h.f) + ": " + h.callee + "(" + firstN(strings.TrimSpace(strings.ReplaceAll(constFormatOf(h.in), "\n", " ")), 50) + ") <- " + firstN(pathOf(h.arg), 60)
+		// a finding is identified by the log statement (package, logging function, constant format text) and what it
+		// prints, not by the function the statement currently sits in: moving the statement into a helper is the same
+		// finding, a new statement is a new one
+		key := strings.TrimPrefix(fnPkgPath(h.f), repoMod+"/") + ": " + h.callee + "(" + firstN(strings.TrimSpace(strings.ReplaceAll(constFormatOf(h.in), "\n", " ")), 50) + ") <- " + firstN(pathOf(h.arg), 60)
 		r.Bad("C17.1", key, h.in.Pos(), fnName(h.f), what, path...)
 	}
 	// discharged sinks
